@@ -48,7 +48,7 @@ def simplex(rng, k, denom=20, allow_zero=True):
 
 def gen_case(rng, gens=GENERATORS, max_total=6):
     gen = rng.choice(list(gens))
-    N = wchoice(rng, [(1, 2), (2, 2), (3, 2), (5, 2), (17, 3), (100, 1), (rng.randint(4, 60), 4)])
+    N = wchoice(rng, [(1, 2), (2, 2), (3, 2), (5, 2), (17, 3), (100, 1), (rng.randint(4, 60), 4), (rng.choice([250, 999, 1000, 1001]), 0.4)])
     case = {"gen": gen, "N": N, "by_bloc": rng.random() < 0.6}
     if gen in NO_BLOCS:
         n = rng.randint(1, 5 if gen in ("ImpartialCulture", "ImpartialAnonymousCulture", "BallotSimplex_from_point") else 6)
